@@ -424,9 +424,17 @@ def check_C15(v, tier, rng):
             break
     # truncated ifft with zero tail equals full ifft
     tg = [g for g in gen_fft_cases(rng, 40 if q else 600, big=0) if g['which'] == 'P.ifft' and g['zero_tail']]
+    # the final odd layer of the two-layer schedule (sizes 2*4^k) with few valid inputs and a non-zero skew_delta
+    for size in (2, 8, 32, 128):
+        for trunc in sorted({1, max(1, size // 4), max(1, size // 2 - 1)}):
+            sd = size * rng.randint(1, (65536 - size) // size)
+            data = bytearray(prng_bytes(rng.randint(1, 2 ** 40), size * 64))
+            data[trunc * 64:] = bytes((size - trunc) * 64)
+            tg.append(dict(which='P.ifft', count=size, len64=1, pos=0, size=size, trunc=trunc, sd=sd,
+                           data=bytes(data), zero_tail=True, k=size.bit_length() - 1))
     tc = []
     for n, g in enumerate(tg):
-        for e in ['naive', 'nosimd', 'avx2']:
+        for e in ENGINES:
             tc.append(fft_case('z%d_%s_t' % (n, e), g, e))
             tc.append(fft_case('z%d_%s_f' % (n, e), dict(g, trunc=g['size']), e))
     impl_t = run_cases('impl', tc, 'C15trunc')
